@@ -154,6 +154,13 @@ impl TryFrom<&str> for OnionV3Address {
 			}
 		};
 
+		// (56 characters of base32 decode to 35 bytes; with padding characters among them
+		// to fewer, possibly fewer than the 32 of the key)
+		if address.len() < 32 {
+			return Err(OnionV3Error::AddressDecoding(
+				"(Interpreted as Base32 String) Input address is too short".to_owned(),
+			));
+		}
 		let mut retval = OnionV3Address([0; 32]);
 		retval.0.copy_from_slice(&address[0..32]);
 
